@@ -423,7 +423,9 @@ def exec_stalled_writer(ctx, case: Dict[str, Any]) -> None:
         async def canceller():
             await vsleep_until(tc)
             token.cancel()
-        ct = asyncio.create_task(canceller())
+        if tc == "pre":
+            token.cancel()        # triggered before the call: whatever the call writes first already blocks
+        ct = asyncio.create_task(canceller() if tc != "pre" else asyncio.sleep(0))
         t0 = loop.time()
         try:
             out = ("return", await send_message(pipe.read, write, "tools/call", {"name": "slow"}, timeout=T, cancellation_token=token))
@@ -616,7 +618,7 @@ def run(ctx):
                     case = {"shared_params": True, "k": kk, "read_delay": rd, "stagger": st, "params": pm}
                     if ctx.mine():
                         exec_shared_params(ctx, case)
-    for tc in (0.2, 0.6, 0.95):
+    for tc in (0.2, 0.6, 0.95, "pre"):
         for T in (1.0, 1.3):
             for until in (T + 0.5, T + 5.0):
                 for free in (1, 0):
